@@ -48,7 +48,7 @@ def mutables(x, path, out):
             mutables(v, '%s[%d]' % (path, i), out)
 
 
-def compare_copy(g, c, res, count=True):
+def compare_copy(g, c, res, count=True, renamed=False):
     if c is g:
         return ('deepcopy:same-object', 'deepcopy returned the graph itself')
     if c.model is not g.model or c.lang_graph is not g.lang_graph:
@@ -99,20 +99,25 @@ def compare_copy(g, c, res, count=True):
             if getattr(t, rel) is getattr(u, rel):
                 return ('deepcopy:attacker-list-shared', 'attacker %s shares its %s list' % (t.name, rel))
     # lookups of the copy return the copy's own objects
-    for n in c.nodes:
+    for n0, n in zip(g.nodes, c.nodes):
         if c.get_node_by_id(n.id) is not n:
             return ('deepcopy:lookup-by-id', 'copy.get_node_by_id(%r) does not return the copy\'s node' % n.id)
-        if c.get_node_by_full_name(n.full_name) is not n and len([x for x in c.nodes if x.full_name == n.full_name]) == 1:
+        if n.full_name != n0.full_name:
+            return ('deepcopy:full-name-differs', 'node %r of the original is called %r in the copy' % (n0.full_name, n.full_name))
+        # same lookups as the original: where the original finds its node under its full name, the copy finds its own
+        orig_ok = g.get_node_by_full_name(n0.full_name) is n0
+        if orig_ok and c.get_node_by_full_name(n.full_name) is not n and len([x for x in c.nodes if x.full_name == n.full_name]) == 1:
             return ('deepcopy:lookup-by-full-name', 'copy.get_node_by_full_name(%r) does not return the copy\'s node' % n.full_name)
     for t in c.attackers:
         if c.get_attacker_by_id(t.id) is not t:
             return ('deepcopy:lookup-attacker', 'copy.get_attacker_by_id(%r) does not return the copy\'s attacker' % t.id)
-    f = agraph.check_invariants(c) or agraph.check_compromise_symmetry(c)
-    if f:
-        return ('deepcopy:' + f[0], 'copy: ' + f[1])
-    f = agraph.check_invariants(g) or agraph.check_compromise_symmetry(g)
-    if f:
-        return ('deepcopy-original:' + f[0], 'original after copying: ' + f[1])
+    if not renamed:
+        f = agraph.check_invariants(c) or agraph.check_compromise_symmetry(c)
+        if f:
+            return ('deepcopy:' + f[0], 'copy: ' + f[1])
+        f = agraph.check_invariants(g) or agraph.check_compromise_symmetry(g)
+        if f:
+            return ('deepcopy-original:' + f[0], 'original after copying: ' + f[1])
     return None
 
 
@@ -306,6 +311,12 @@ def _check_case(case, res, count=True):
             res.count('class:highest-id-removed-before-copy')
         if g.attackers:
             res.count('class:copy-with-attackers')
+    if case.get('rename_asset') is not None and getattr(g, 'model', None) is not None and g.model.assets:
+        # an asset of the (shared) model is renamed after the graph was generated, then the graph is copied
+        a0 = g.model.assets[case['rename_asset'] % len(g.model.assets)]
+        a0.name = str(a0.name) + ' (renamed)'
+        if count:
+            res.count('class:model-asset-renamed-before-the-copy')
     try:
         if case.get('holder') and g.attackers:
             # the graph is part of a larger object which references one of its attackers (and a node) first
@@ -324,7 +335,8 @@ def _check_case(case, res, count=True):
         return ('deepcopy:raised-%s' % type(exc).__name__, 'copy.deepcopy raised %r' % (exc,))
     if count:
         res.count('copies-compared')
-    f = compare_copy(g, c, res, count) or next_ids_agree(g, c, res, count)
+    renamed = case.get('rename_asset') is not None and getattr(g, 'model', None) is not None and bool(g.model.assets)
+    f = compare_copy(g, c, res, count, renamed=renamed) or next_ids_agree(g, c, res, count)
     if f:
         return f
     k = world.add_graph(c, world.graphs[0]['built'])
@@ -366,7 +378,8 @@ def gen_case14(rng):
         hist.append(op)
     if rng.random() < 0.3:
         hist.append(['remove_node', 10 ** 6 - 1])      # often the last node
-    return {'start': start, 'history': hist, 'seed': rng.randrange(10 ** 9), 'holder': rng.random() < 0.3}
+    return {'start': start, 'history': hist, 'seed': rng.randrange(10 ** 9), 'holder': rng.random() < 0.3,
+            'rename_asset': rng.randrange(1000) if rng.random() < 0.15 else None}
 
 
 def run(rng, res, tier, shard, nshards):
